@@ -20,7 +20,7 @@ class OneshotEngine(Engine):
     name = "oneshot"
 
     def n_cases(self, tier):
-        return 2500 if tier == "quick" else 60000
+        return 800 if tier == "quick" else 60000
 
     def corpus(self):
         c = CFG
